@@ -1,6 +1,7 @@
 package subtle
 
 import (
+	"github.com/tink-crypto/tink-go/v2/internal/verifh"
 	"github.com/tink-crypto/tink-go/v2/internal/verifrt"
 	"github.com/tink-crypto/tink-go/v2/internal/verifspec"
 )
@@ -112,4 +113,21 @@ func kwpBlocks() int {
 		return 5
 	}
 	return 3
+}
+
+func VerifH_c19_kwp() {
+	k, _ := NewKWP(verifrt.Bytes("kek", 16))
+	data := verifh.Buf("data", 16+verifrt.Choice("n", 10), "caller key buffer")
+	w, err := k.Wrap(data)
+	verifrt.Assert(err == nil, "Wrap succeeds")
+	verifrt.CheckProtected()
+	verifrt.Assert(!verifrt.SameArray(w, data), "wrapping shares no memory with the input")
+	wbuf := make([]byte, len(w), len(w)+verifrt.Choice("w.spare", 3))
+	copy(wbuf, w)
+	verifrt.Protect(wbuf, "caller wrapped-key buffer")
+	u, err := k.Unwrap(wbuf)
+	verifrt.Assert(err == nil, "Unwrap succeeds")
+	verifrt.CheckProtected()
+	verifrt.Assert(!verifrt.SameArray(u, wbuf), "unwrapped key shares no memory with the input")
+	verifrt.Reach("end")
 }
